@@ -15,7 +15,7 @@ EXPLANATION = (
     "callable: the object itself; str: contains(get_context(value), <the string>); list and tuple: the container classes, "
     "given the raise_on_error parameter -- every other specification leaves through LenaTypeError; the container constructed "
     "for a list reduces with any(), the one for a tuple with all(), both over self._selectors forwards applying every item to "
-    "the value; their constructors keep a ready Selector item and convert every other item with the raise_on_error they were "
+    "the value, lazily (a generator, so that evaluation is short-circuit); their constructors keep a ready Selector item and convert every other item with the raise_on_error they were "
     "given, in order, one append per item; Not.__call__ negates the result of Selector.__call__.  "
     "(b) CONTAINMENT: every call of the wrapped selector / predicate in Selector.__call__ and SelectContext.__call__ lies in a "
     "try whose handler catches Exception; on the handler's paths the exception leaves only when _raise_on_error is set and "
@@ -263,6 +263,16 @@ def reducer_of(ctx, cls_target):
     if call is None:
         return None, None
     ps = [p for p in A.func_params(call) if p != "self"]
+    # evaluation is short-circuit (documented for Or; And relies on it the same way): a comprehension that applies all
+    # items before any()/all() looks at them evaluates leaves that must not be evaluated -- a raising leaf after the
+    # deciding item then propagates
+    for x in A.walk_local(call):
+        if isinstance(x, (ast.ListComp, ast.SetComp)) and any(A.src(g.iter) == "self._selectors" for g in x.generators):
+            ctx.violation("C15-a", x, "%s.__call__ applies every item of self._selectors in the list `%s` before reducing: evaluation "
+                          "is no longer short-circuit, so an item that raises on a value already decided by an earlier item propagates "
+                          "its exception (Selector([true_for_v, raising])(v) raises instead of being True)" % (cname, A.short(x, 50)),
+                          construct="%s-eager" % cname)
+            return (None, call) if False else ("any" if cname == "Or" else "all", call)
     c = _straight_return(call)
     if len(ps) != 1 or not isinstance(c, ast.Call):
         return None, call
@@ -1374,7 +1384,8 @@ VARIANTS = [
     M("tree-ignores-include", IETF, "        self.include = bool(include)", "        self.include = True", ["C15-f"]),
     # twins
     TW("call-return-in-try", SELF, "        try:\n            sel = self._selector(value)\n        except Exception as err:  # pylint: disable=broad-except\n            # it can be really any exception: AttributeError, etc.\n            if self._raise_on_error:\n                raise err\n            return False\n        else:\n            return sel", "        try:\n            return self._selector(value)\n        except Exception:\n            if not self._raise_on_error:\n                return False\n            raise"),
-    TW("or-listcomp", SELF, "        return any((f(val) for f in self._selectors))", "        return any([sel(val) for sel in self._selectors])"),
+    M("or-eager-list", SELF, "        return any((f(val) for f in self._selectors))", "        return any([sel(val) for sel in self._selectors])", ["C15-a"]),
+    M("or-eager-results", SELF, "        return any((f(val) for f in self._selectors))", "        results = [f(val) for f in self._selectors]\n        return any(results)", ["C15-a"]),
     TW("flip-any", IETF, "            if min(len(subkey) for subkey in tails) == 0:", "            if [] in tails:"),
     TW("get-exclude-direct", IETF, "            exclude = self.keys\n            for key, value in context.items():\n                if key in exclude:", "            for key, value in context.items():\n                if key in self.keys:"),
     TW("groupby-not-in", GBF, "        if key in self.groups:\n            self.groups[key].append(val)\n        else:\n            self.groups[key] = [val]", "        if key not in self.groups:\n            self.groups[key] = [val]\n        else:\n            self.groups[key].append(val)"),
